@@ -101,5 +101,36 @@ theorem claim_changes_no_delegators_value (del : Acct) (v : ValId) (d : Option D
     (h : step (.claim del v d) w = (.ok (), w')) (del' : Acct) (v' : ValId) (d' : Denom) :
     qDelegation w' del' v' d' = qDelegation w del' v' d' := claim_changes_no_reported_balance del v d w w' hk h del' v' d'
 
+/-- bank side: a successful delegation, undelegation, redelegation or claim by `del` leaves the balance of every OTHER user
+    account, in every denom, exactly where it was — only `del` and the system accounts are debited or credited
+    (proof: AllianceProofs/OtherUsers) -/
+theorem other_users_balances_untouched (op : Op) (del u : Acct) (d : Denom) (hu : IsUser u) (hne : u ≠ del) (w w' : World)
+    (hop : match op with
+      | .delegate a .. | .undelegate a .. | .redelegate a .. | .claim a .. => a = del
+      | _ => False)
+    (h : step op w = (.ok (), w')) : bankBalance w' u d = bankBalance w u d :=
+  other_users_untouched op del hu hne w w' hop h
+
+/-! ## the value arithmetic is what the source says NOW
+
+  `Generated/Arith.lean` is re-translated from x/alliance/types/{asset,validator}.go and keeper/delegation.go by
+  astfacts/translate.go on every run of bin/check; the model's functions are proved equal to it. An operator, operand,
+  guard or rounding-order change in the Go source breaks these obligations without any trace having to exercise it. -/
+
+theorem share_token_conversions_are_the_source (tt ts s : Dec) (n : Int) (v : ValInfo) (a : Asset) :
+    Generated.ConvertNewTokenToShares tt ts n = convertNewTokenToShares tt ts n ∧
+    Generated.ConvertNewShareToDecToken tt ts s = .ok (convertNewShareToDecToken tt ts s) ∧
+    Generated.TotalTokensWithAsset v a = .ok (totalTokensWithAsset v a) ∧
+    Generated.GetDelegationTokensWithShares s v a = delegationTokensWithShares s v a ∧
+    Generated.GetDelegationSharesFromTokens v a n = delegationSharesFromTokens v a n ∧
+    Generated.GetValidatorShares a n = validatorShares a n :=
+  ⟨ArithTie.convertNewTokenToShares_is_source tt ts n, ArithTie.convertNewShareToDecToken_is_source tt ts s,
+   ArithTie.totalTokensWithAsset_is_source v a, ArithTie.getDelegationTokensWithShares_is_source s v a,
+   ArithTie.getDelegationSharesFromTokens_is_source v a n, ArithTie.getValidatorShares_is_source a n⟩
+
+theorem validate_delegated_amount_is_the_source (dl : Delegation) (amt : Int) (v : ValInfo) (a : Asset) :
+    Generated.ValidateDelegatedAmount dl amt v a = validateDelegatedAmount dl.shares amt v a :=
+  ArithTie.validateDelegatedAmount_is_source dl amt v a
+
 end C04
 end Alliance
